@@ -208,3 +208,49 @@ def string_scanners_agree(prog, R, rule):
     R.ob(rule, "single_quoted_string and double_quoted_string agree up to the quote character", not diff and sane, b.at if b else "",
          f"{len(d)} (consumed, next) character-class pairs give the same (terminated, characters consumed) outcome in both scanners" if not diff and sane else
          f"the string scanners disagree for (consumed, next) classes {diff[:4]} (Q = own quote, O = other quote): double {[d[k] for k in diff[:2]]} vs single {[s_.get(k) for k in diff[:2]]}; sane={sane}")
+
+
+def string_flag_table(prog, fn, quote):
+    """Flags reported by a quoted-string scanner for the bodies s in {'_','0','a'}^3 followed by the closing quote:
+    (terminated, only_ones_and_zeros, consecutive_underscores), by evaluating the scanner's MIR on the four
+    characters (the cursor is modelled by the number of bump() calls made so far)."""
+    from sym import deep_strip, show
+    import itertools
+    b = prog.body(fn)
+    if b is None:
+        return None
+    out = {}
+    for seq in itertools.product("_0a", repeat=3):
+        chars = [ord(x) for x in seq] + [quote]
+
+        def model(se, st, t, cal, args, site, chars=chars):
+            nb = sum(1 for nm, a, bb in st.calls if nm.endswith("Cursor::bump"))
+            if cal.endswith("Cursor::bump"):
+                return ("adt", "std::option::Option::Some", (("c", "char", chars[nb]),)) if nb < len(chars) else ("adt", "std::option::Option::None", ())
+            if cal.endswith("Cursor::first"):
+                return ("c", "char", chars[nb] if nb < len(chars) else 0)
+            return None
+        res = set()
+        for p in SymExec(prog, b, max_visits=8, max_paths=300, call_model=model).paths():
+            if "__diverged__" in p.env or "__cut__" in p.env:
+                continue
+            r = deep_strip(p.env.get(0))
+            res.add(tuple(show(x) for x in r[1]) if isinstance(r, tuple) and r[0] == "tuple" else ("?",))
+        out["".join(seq)] = tuple(sorted(res))
+    return out
+
+
+def string_flags_check(prog, R, rule):
+    for fn, q in (("oq3_lexer::Cursor::double_quoted_string", 34), ("oq3_lexer::Cursor::single_quoted_string", 39)):
+        t = string_flag_table(prog, fn, q)
+        b = prog.body(fn)
+        if t is None:
+            R.ob("ANCHOR", fn, False)
+            continue
+        bad = []
+        for s_, res in sorted(t.items()):
+            want = (("true", "true" if all(c in "_0" for c in s_) else "false", "true" if "__" in s_ else "false"),)
+            if res != want:
+                bad.append((s_, res))
+        R.ob(rule, fn.split("::")[-1], not bad, b.at, f"27 bodies over {{_,0,a}}^3: (terminated, only 0/1, consecutive underscores) as specified" if not bad else
+             f"flags of a terminated string deviate for bodies {[(s_, r) for s_, r in bad[:3]]} (expected terminated, only-0/1 iff all of 0/_ , consecutive-underscores iff it contains '__'): a well-formed bit string gets a lexical error or a malformed one none")
